@@ -182,6 +182,26 @@ def c02(shape: Shape, hist, obs, realisation: str = "", store_kind: str = "local
     return res
 
 
+def coarser_than_cone(hist, obs) -> int:
+    """Informational (never a verdict): number of pairs of kept nodes of one history whose cones differ
+    but whose real signatures are equal.  The properties do not forbid it (a library may legitimately
+    ignore something value-irrelevant, e.g. comments), but on an implementation that hashes the whole
+    text it is zero, and a non-zero count after a change points at a dependency that is no longer hashed."""
+    sig_to_cones: Dict[str, set] = {}
+    for (i, rec) in evals(hist):
+        o = obs.get(i, {})
+        if rec["err"] != "" or o.get("err") is not None:
+            continue
+        sync = [op for op in (o.get("ops") or []) if op[0] == "sync"]
+        if not sync:
+            continue
+        real = dict((p, k) for (p, k) in sync[-1][1])
+        for (p, c) in rec["req"]:
+            if p in real:
+                sig_to_cones.setdefault(real[p], set()).add(cone_id(c))
+    return sum(len(cs) - 1 for cs in sig_to_cones.values() if len(cs) > 1)
+
+
 # -- C04 ---------------------------------------------------------------------------------
 
 def c04(shape: Shape, hist, obs, realisation: str = "", store_kind: str = "local") -> List[Viol]:
